@@ -87,6 +87,16 @@ func (concEngine) Gen(prop string, seed uint64, tier string) *Spec {
 		// stream; all writes are stable, so every acknowledged operation must survive
 		spec.Knobs["crashc"] = 1
 	}
+	if prop == "C07" {
+		// crash mode with all three stability levels and COMMITs: a write answered
+		// UNSTABLE may be lost unless a COMMIT or a stable operation was acknowledged
+		// after it; everything else acknowledged must survive
+		spec.Knobs["crashc"] = 2
+		spec.Knobs["unstable"] = 0
+		if rng.Chance(0.75) {
+			spec.Knobs["unstable"] = 1
+		}
+	}
 	pat := uint64(1)
 	for c := 0; c < ncl; c++ {
 		n := 3 + rng.Intn(maxops-2)
@@ -128,7 +138,13 @@ func (concEngine) Gen(prop string, seed uint64, tier string) *Spec {
 		}
 		for i := 0; i < n; i++ {
 			var op Op
-			switch rng.Pick([]int{10, 8, 10, 12, 8, 6, 5, 4, 6, 3, 3, 2, 2}) {
+			weights := []int{10, 8, 10, 12, 8, 6, 5, 4, 6, 3, 3, 2, 2, 3}
+			if prop == "C07" {
+				// mostly writes (two thirds UNSTABLE) and COMMITs on a few files; little else,
+				// because every stable operation flushes the log and closes the windows
+				weights = []int{3, 2, 2, 45, 5, 4, 1, 1, 1, 0, 3, 0, 1, 1}
+			}
+			switch rng.Pick(weights) {
 			case 0:
 				op = Op{K: "create", H: dirSlot(), N: name(), How: rng.Intn(2)}
 				if rng.Chance(0.12) {
@@ -148,6 +164,9 @@ func (concEngine) Gen(prop string, seed uint64, tier string) *Spec {
 				pat++
 				if prop == "C01" {
 					op.How = 1 + rng.Intn(2)
+				}
+				if prop == "C07" && rng.Chance(0.6) {
+					op.How = 0
 				}
 			case 4:
 				op = Op{K: "read", H: fileSlot(), Off: uint64(rng.Intn(2)) * 2048, Len: 8192}
@@ -174,6 +193,19 @@ func (concEngine) Gen(prop string, seed uint64, tier string) *Spec {
 			case 12:
 				op = Op{K: "symlink", H: dirSlot(), N: name(), Len: 5, Pat: pat}
 				pat++
+			case 13:
+				op = Op{K: "access", H: fileSlot()}
+				if rng.Chance(0.3) {
+					op.H = dirSlot()
+				}
+			}
+			if prop == "C07" {
+				if op.K == "create" {
+					op.How = 1 // GUARDED: a successful create always makes a new object
+				}
+				if rng.Chance(0.3) {
+					op = Op{K: "commit", H: fileSlot()}
+				}
 			}
 			ops = append(ops, op)
 		}
@@ -196,6 +228,28 @@ type pState struct {
 	crashed bool
 }
 
+// pagesHash is a content hash of a regular file's pages, cached in the object
+// (objects are copied before they are modified, and mut resets the cache).
+func (o *MObj) pagesHash() uint64 {
+	if o.pgHashOK {
+		return o.pgHash
+	}
+	pgs := make([]uint64, 0, len(o.Pages))
+	for p := range o.Pages {
+		pgs = append(pgs, p)
+	}
+	sort.Slice(pgs, func(i, j int) bool { return pgs[i] < pgs[j] })
+	h := uint64(1469598103934665603)
+	for _, p := range pgs {
+		h = (h ^ p) * 1099511628211
+		for _, c := range o.Pages[p] {
+			h = (h ^ uint64(c)) * 1099511628211
+		}
+	}
+	o.pgHash, o.pgHashOK = h, true
+	return h
+}
+
 func (m *Model) canon() string {
 	var b strings.Builder
 	b.WriteString(m.metaSorted())
@@ -204,19 +258,7 @@ func (m *Model) canon() string {
 		// the same tree shape but swapped objects are different)
 		fmt.Fprintf(&b, "|%s=%x:%d", m.PathOf(o), o.H, o.FileID)
 		if o.Kind == kREG {
-			pgs := make([]uint64, 0, len(o.Pages))
-			for p := range o.Pages {
-				pgs = append(pgs, p)
-			}
-			sort.Slice(pgs, func(i, j int) bool { return pgs[i] < pgs[j] })
-			h := uint64(1469598103934665603)
-			for _, p := range pgs {
-				h = (h ^ p) * 1099511628211
-				for _, c := range o.Pages[p] {
-					h = (h ^ uint64(c)) * 1099511628211
-				}
-			}
-			fmt.Fprintf(&b, ":%x", h)
+			fmt.Fprintf(&b, ":%x", o.pagesHash())
 		}
 	}
 	// dead handles matter too (stale detection)
@@ -712,16 +754,60 @@ func (x *concRun) crashCheck() *Violation {
 	}
 	model := nfsPorcupineModel(x.m)
 	const crashT = int64(1) << 40
+	mode := spec.knob("crashc", 0)
 	v := enumerateCrashes(x.base, tr, spec.Crash, crng, int(spec.knob("subsets", 2)), maxImg, &cst, func(cp *CrashPoint) *Violation {
 		where := fmt.Sprintf("crash before disk event %d of the concurrent phase (%s %s; %d un-barriered writes)", cp.Event, cp.Mode, cp.Mask, cp.Open)
 		var recs []*concRec
 		acked, inflight := 0, 0
+		ackedAt := func(i int) bool {
+			ret, ok := returnAt[i]
+			return ok && ret < cp.Event
+		}
+		// the newest acknowledged operation that certainly flushed the log (a COMMIT,
+		// or a successful operation that was not answered UNSTABLE and whose
+		// transaction cannot be empty): unstable writes acknowledged before it was
+		// invoked must be durable
+		flushCall := int64(-1)
+		if mode == 2 {
+			for i, r := range conc {
+				if r.out == nil || r.out.Status != 0 || !ackedAt(i) {
+					continue
+				}
+				sure := false
+				switch r.in.K {
+				case "commit", "mkdir", "symlink", "remove", "rmdir":
+					sure = true
+				case "create":
+					sure = r.in.How == 1
+				case "write":
+					sure = r.out.Commit > 0 && r.out.Count > 0
+				}
+				if sure && r.call > flushCall {
+					flushCall = r.call
+				}
+			}
+		}
 		for i, r := range conc {
 			inv, okI := invokeAt[i]
-			if !okI || inv >= cp.Event || readOnlyKind(r.in.K) || r.out == nil || r.out.Status != 0 {
+			if !okI || inv >= cp.Event || readOnlyKind(r.in.K) || r.in.K == "commit" || r.out == nil || r.out.Status != 0 {
 				continue
 			}
-			if ret, ok := returnAt[i]; ok && ret < cp.Event {
+			if mode == 2 && (r.in.K == "write" || r.in.K == "setattr") && r.out.Attr != nil {
+				// the attributes in a reply may reflect another client's unstable data
+				// that is legitimately lost; they are checked in the crash-free history
+				o := *r.out
+				o.Attr = nil
+				r = &concRec{client: r.client, in: r.in, out: &o, call: r.call, ret: r.ret}
+			}
+			mayBeLost := mode == 2 && r.in.K == "write" && r.out.Commit == 0 && r.ret > flushCall
+			if mode == 2 && r.in.K == "write" && r.out.Commit == 0 && ackedAt(i) {
+				if mayBeLost {
+					x.res.count("crash_unstable_writes_optional", 1)
+				} else {
+					x.res.count("crash_unstable_writes_forced_by_later_flush", 1)
+				}
+			}
+			if ackedAt(i) && !mayBeLost {
 				recs = append(recs, r)
 				acked++
 			} else {
